@@ -191,7 +191,7 @@ theorem msg_never_panics (b : Buf) (o : Nat) (m : PSIPMsg) (flags : Nat) (hfit :
   have := (parseSIPMsg_resume b #[] o m flags flags hok hfit hp).2.1
   simpa only [Array.append_empty] using this
 
-/-- … in particular from any object produced by Init: any previous contents, caller arrays of any capacity (or none),
+/-- … in particular from any object produced by Init: any previous contents, ZEROED caller arrays of any capacity (or none),
     any start offset inside the buffer -/
 theorem msg_never_panics_init (b : Buf) (o : Nat) (ho : o ≤ b.size) (m0 : PSIPMsg) (len kh kc : Nat)
     (hdrs cts : Option Unit) (flags : Nat) (hfit : b.size ≤ 65535) :
@@ -321,5 +321,10 @@ theorem sig_never_panics_reset_schedule : type_of% @Sipsp.sc_getMsgSig_safe_rese
 
 /-- **Reset after any history gives an Init object** (so every theorem stated "from Init" applies after Reset) … -/
 theorem reset_after_history_is_init : type_of% @Sipsp.sc_reset_after_history := @Sipsp.sc_reset_after_history
+
+/-! ### ContainsIP6 (proved in `Sipsp.Proofs.SafeRest`) -/
+
+/-- **ContainsIP6 never panics** -/
+theorem containsip6_never_panics : type_of% @Sipsp.containsIP6_safe := @Sipsp.containsIP6_safe
 
 end Sipsp.C04
